@@ -20,7 +20,7 @@ BOUNDS = {
     "quick": dict(max_params=4, max_pos=4, max_kw=3, unk_params=3),
     "thorough": dict(max_params=5, max_pos=4, max_kw=4, unk_params=4, six=True),
 }
-# thorough additionally takes every signature with exactly 6 parameters (1 462 of them) with a reduced call alphabet: <= 6 positionals, <= 2 keywords, no star literals
+# thorough additionally takes every signature with exactly 6 parameters (1 462 of them) with the call alphabet <= 4 positionals, <= 3 keywords, star/star-star literals, plus <= 6 positionals with <= 2 keywords without star literals
 
 
 def bounds(tier):
@@ -36,7 +36,7 @@ def units(tier):
     out += [("unk", tier, i, min(m, i + 12)) for i in range(0, m, 12)]
     if b.get("six"):
         n6 = len(_six())
-        out += [("six", tier, i, min(n6, i + 40)) for i in range(0, n6, 40)]
+        out += [("six", tier, i, min(n6, i + 8)) for i in range(0, n6, 8)]
     return out
 
 
@@ -54,7 +54,9 @@ def _run_six(res, tier, lo, hi):
     sigs = _six()
     for si in range(lo, hi):
         params = sigs[si]
-        shapes = S.call_shapes(params, 6, 2, stars=False)
+        shapes = S.call_shapes(params, 4, 3, stars=True)
+        seen = set(shapes)
+        shapes = shapes + [sh for sh in S.call_shapes(params, 6, 2, stars=False) if sh not in seen]
         hdr = "def f(%s): pass\n" % S.render_params(params)
         ns = {}
         exec(hdr, ns)
